@@ -48,6 +48,8 @@ def spec_values(seed):
           [['rainbow', 'abc']], [['plain', 'abc'], ['apply', R['B'], 1, 2, True]],
           [['plain', 'abc'], ['apply', R['R'], 0, 2, True], ['apply', R['W'], 1, 3, True]],
           [['rainbow', 'abc'], ['apply', R['W'], 0, 3, True]], [['plain', 'ab'], ['apply', R['N'], 0, 2, True]],
+          # a stop-and-restart point in the middle (an apply over the whole padded result touches it)
+          [['plain', 'abcd'], ['apply', R['W'], 0, 4, True], ['apply', R['R'], 1, 3, False]],
           [['plain', 'abcd'], ['apply', R['R'], 0, 2, True], ['apply', R['W'], 0, 3, True], ['apply', R['U'], 0, 2, True]]]
     return hs
 
